@@ -1,20 +1,35 @@
 """
 C01 — parsing and rendering are total and terminate for every input.
 
-Exploration on the implementation: every bundled renderer configuration (boolean options,
-max_line_length) on random documents, mutations of the spec corpus, a malformed stream, exhaustive
-small-alphabet strings and line sequences, deep nesting up to depth 100; any exception other than
-the two documented refusals, and any parse+render over the wall-clock budget, is a violation.
+Theorems (lean/Mistletoe/Props/C01.lean; lemmas in Proofs/BlockTotal.lean, Proofs/DocTotal.lean, Proofs/CoreTotal.lean)
+over the parser model, in which every Python raise site is an explicit error value and every loop that is not
+structural takes fuel:
+  * `C01_block_no_raise`: for every token-type list, gas and list of complete lines (what Document(str) produces:
+    `C01_block_document`), the block phase returns no error other than running out of gas - none of the IndexError /
+    TypeError / StopIteration / UnboundLocalError sites of block_token.py / block_tokenizer.py is reachable;
+  * `C01_block_terminates`: with gas above an explicit closed-form bound in the weighted text length the block phase
+    returns a result (no inner loop fuel and no nesting gas runs out), and more gas never changes it
+    (`C01_block_gas_mono`, `C01_block_gas_irrelevant`);
+  * the Document-level and inline theorems listed in the evidence as they are added.
+Units: `scan.*`, `block.buffer` and `doc` - the real tokenize_block / Document(text) / HtmlRenderer against the model
+(result or exception kind) on this run's random, mutated, malformed, truncated and deeply nested inputs.
+Exploration on the implementation: every bundled renderer configuration (boolean options, max_line_length) on random
+documents, mutations of the spec corpus, a malformed stream, exhaustive small-alphabet strings and line sequences,
+deep nesting up to depth 100; any exception other than the two documented refusals, and any parse+render over the
+wall-clock budget, is a violation.
 """
 import io
 import itertools
 
+import block_units
 import common
+import doc_units
 import gen_docs
 import impl
+import scan_units
 
 ID = 'C01'
-LEVEL = 'exploration'
+EXTRA_MODULES = ['Mistletoe.Proofs.BlockTotal']
 RULE = ('random documents, spec mutations/splices, malformed Unicode stream, exhaustive strings over {a,space,*,_,.,[,],`} '
         'and exhaustive line sequences over a 14-line vocabulary, deep nesting (quotes, lists, brackets, emphasis) to depth '
         '100; x the 11 bundled renderers x their boolean options x max_line_length in {None,0,1,2,40}; supplied as str, '
@@ -23,8 +38,11 @@ RULE = ('random documents, spec mutations/splices, malformed Unicode stream, exh
 TRUSTED = ['per-input wall-clock budget enforced with SIGALRM (10 s for <= 4 KB)', 'Pygments itself is exercised, not modelled']
 ASSUMPTIONS = ['admissible failures: RuntimeError from LaTeX inline code without a free \\\\verb delimiter; pygments ClassNotFound '
                'with fail_on_unsupported_language=True; RecursionError only beyond nesting depth 100']
-PARTIAL = ['interim level: exploration of the implementation. Lean totality theorems (fuel sufficiency of the block '
-           'dispatch loop, process_emphasis, render totality) come with the parser model (DESIGN.md C01)']
+PARTIAL = ['the theorems cover the parser (block phase, token constructors, inline phase) and, through the total Lean '
+           'functions that model them, the Html/LaTeX/Ast renderers; the Markdown, Jira, XWiki and Pygments renderers are '
+           'not modelled: their totality is explored on the implementation',
+           'wall-clock termination and the interpreter recursion limit are runtime behaviour: measured on the '
+           'implementation (depth <= 100), represented in the model by the gas bound']
 
 
 def configs(ctx):
@@ -145,7 +163,20 @@ def _cases(ctx):
 
 
 def units(ctx):
-    pass
+    scan_units.run(ctx)
+    rng = ctx.rng('units')
+    texts = gen_docs.corpus_stream(rng, ctx.budget(1500, 15000), only_lf=False)
+    texts += [gen_docs.malformed(rng) for _ in range(ctx.budget(400, 4000))]
+    texts += ['**a****b*', '>', '-', '> ', '1.', '```', '|', '[', '![', '`', '\\', '<', '&', '*', '_', '\t', '- \n  \n', '>\n>',
+              '| |\n|-|\n', '[a]:', '***\n---\n===\n', '    \n', '\n\n\n', '#', '# #', '<!--', '<?', '<![CDATA[', '</', '<a', '<!', '<!\n']
+    for e in gen_docs.spec_examples()[::3]:
+        md = e['markdown']
+        texts += [md[:k] for k in range(1, len(md), 2)]
+    for depth in (10, 40):
+        for kind in ('quote', 'list', 'bracket', 'emph', 'mixed'):
+            texts.append(nested(depth, kind))
+    block_units.run(ctx, texts[::2])
+    doc_units.run(ctx, texts)
 
 
 def explore(ctx, seeds):
